@@ -1,7 +1,7 @@
 /-
 C03 — property theorems (and non-vacuity examples). Nothing else lives here; lemmas are in Proofs*.lean.
 
-Period limit   : period_exact_quota, period_grants_exactly_quota, period_life_ends,
+Period limit   : period_refines_spec, period_exact_quota, period_grants_exactly_quota, period_life_ends,
                  store_error_never_grants, reply_code_table
 Token limit    : ttl_covers_burst, token_refines_bucket, token_rate_bound
 Rescue limiter : rescue_local_bound, rescue_rate_exact
@@ -9,7 +9,7 @@ Defects (witnesses about the faithful model of the pinned code):
                  pinned_ttl_zero_script_fails, pinned_never_uses_store, pinned_ttl_zero_overgrants,
                  rescue_exceeds_nominal_rate
 -/
-import GoZero.C03.ProofsPeriod
+import GoZero.C03.ProofsPeriodSpec
 import GoZero.C03.ProofsTokenBound
 import GoZero.C03.ProofsRescueSys
 namespace GoZero.C03.Props
@@ -89,6 +89,19 @@ theorem period_life_ends (quota period : Nat) (hp : 1 ≤ period) (k : String) (
 example : (PSys.exec 3 2 PSys.init [.take "a", .take "a", .ft 1999, .take "a"]).store.get "a"
       = some ⟨3, some 2000⟩ ∧
     (PSys.exec 3 2 PSys.init [.take "a", .take "a", .ft 1999, .take "a", .ft 1]).store.get "a" = none := by decide
+
+/-- **Refinement to the specification by lives** (the executable monitor of the driver): for every quota,
+period ≥ 1 and EVERY sequence of takes (any keys), clock advances, outages and recoveries from the empty store,
+the replies of the model are the replies of `Spec.ptake` — a life per key starting at the take that finds no
+running life, lasting `period` seconds, whose i-th take is answered `codeOf quota i`; takes during an outage are
+answered `(Unknown, err)` and do not count. -/
+theorem period_refines_spec (quota period : Nat) (hp : 1 ≤ period) (ops : List POp) :
+    PSys.run quota period PSys.init ops = SpecSys.run quota period SpecSys.init ops :=
+  period_refines_spec_from quota period hp ops PSys.init SpecSys.init ⟨rfl, rfl, fun _ => rfl⟩
+
+example : PSys.run 2 1 PSys.init [.take "a", .take "a", .down, .take "a", .up, .take "a", .ft 1000, .take "a"]
+    = [some (.allowed, .nil), some (.hitQuota, .nil), none, some (.unknown, .store), none,
+       some (.overQuota, .nil), none, some (.allowed, .nil)] := by decide
 
 /-- **A store error is an error, never a grant**: while the store is unreachable `Take` answers
 `(Unknown, err)` and changes nothing. -/
